@@ -902,7 +902,17 @@ def q_clear(it, sv, a, k):
     return None
 
 
-SEQ_METHODS = {"clear": q_clear, "ljust": q_ljust, "split": q_split, "pop": q_pop, "append": q_append, "decode": q_decode, "extend": q_extend}
+def q_strip(it, sv, a, k):
+    """bytes.strip() / lstrip() / rstrip(): some contiguous part of the bytes - possibly empty although the bytes
+    are not (a chunk of blanks and line endings).  Over-approximation: which part is left open."""
+    if sv.elem_kind != "byte" or a or k:
+        raise Unsupported("strip on this sequence / with arguments")
+    r = it.ctx.fresh_term(sv.term.sort(), "stripped")
+    it.ctx.add_fact(z3.Contains(sv.term, r))
+    return SeqVal("byte", r, "bytes")
+
+
+SEQ_METHODS = {"strip": q_strip, "lstrip": q_strip, "rstrip": q_strip, "clear": q_clear, "ljust": q_ljust, "split": q_split, "pop": q_pop, "append": q_append, "decode": q_decode, "extend": q_extend}
 
 
 def r_append(it, sr, a, k):
